@@ -547,24 +547,36 @@ func ownScan(b []byte) ([]string, int) {
 func isContent(l string) bool { return l != "" && !strings.HasPrefix(l, "#") }
 
 var (
-	reLine    = regexp.MustCompile(`(?:error at line|malformed recipient at line) (\d+)`)
-	reTooLong = regexp.MustCompile(`line (\d+) is too long`)
+	// any wording that names a line: the property asks for the line's NUMBER, not for a particular sentence
+	reLine    = regexp.MustCompile(`(?i)\bline (\d+)\b`)
+	reTooLong = regexp.MustCompile(`(?i)\bline (\d+) is too long`)
 	reWarn    = regexp.MustCompile(`ignoring unsupported SSH key of type "([^"]*)" at line (\d+)`)
 )
 
 // classify turns an error text into the model's vocabulary.
 func classifyKeyFileErr(msg string) string {
+	// the command line tool's warnings (which name the lines it skips) are not the error
+	var kept []string
+	for _, l := range strings.Split(msg, "\n") {
+		if !strings.HasPrefix(l, "age: warning:") {
+			kept = append(kept, l)
+		}
+	}
+	msg = strings.Join(kept, "\n")
 	switch {
 	case reTooLong.MatchString(msg):
 		return "err toolong " + reTooLong.FindStringSubmatch(msg)[1]
 	case reLine.MatchString(msg):
 		return "err line " + reLine.FindStringSubmatch(msg)[1]
-	case strings.Contains(msg, "no secret keys found"), strings.Contains(msg, "no recipients found"):
-		return "err nokeys"
-	case strings.Contains(msg, "failed to read secret keys file"), strings.Contains(msg, "failed to read recipients file"):
-		return "err scan"
 	}
-	return ""
+	// a failure that names no line ("no keys found", a read error, …): the property does not prescribe its wording
+	return "err nonline"
+}
+
+// canonKeyFile collapses the model's two line-less error classes into the one the implementation's text is read as
+func canonKeyFile(s string) string {
+	s = strings.Replace(s, "err nokeys", "err nonline", 1)
+	return strings.Replace(s, "err scan", "err nonline", 1)
 }
 
 // the fixed wording of the recipients-file messages: windows of line content that
@@ -609,7 +621,7 @@ func firstOffending(lines []string, ok func(string) bool) int {
 // ---------- library cases ----------
 
 func libCase(kind string, fl int, file []byte, lines []c18Line, note string) *h.Case {
-	c := &h.Case{Kind: kind, Note: note}
+	c := &h.Case{Kind: kind, Note: note, Canon: canonKeyFile}
 	op := "kfids"
 	okf := idOK
 	if fl == flRcp {
@@ -673,12 +685,12 @@ func libCase(kind string, fl int, file []byte, lines []c18Line, note string) *h.
 				orc = append(orc, fmt.Sprintf("first offending line is %d but the error is %q", fo, msg))
 			}
 		case tooLong >= 0:
-			if c.Impl != "err scan" {
-				orc = append(orc, fmt.Sprintf("over-long line %d, no offending line before it, but the error is %q", tooLong+1, msg))
+			if c.Impl != "err nonline" {
+				orc = append(orc, fmt.Sprintf("over-long line %d, no offending line before it, but the error blames a line: %q", tooLong+1, msg))
 			}
 		case len(content) == 0:
-			if c.Impl != "err nokeys" {
-				orc = append(orc, fmt.Sprintf("no key line, but the error is %q", msg))
+			if c.Impl != "err nonline" {
+				orc = append(orc, fmt.Sprintf("no key line, but the error blames a line: %q", msg))
 			}
 		default:
 			orc = append(orc, fmt.Sprintf("every line is a valid key, a comment or empty, but the parse failed: %q", msg))
@@ -763,7 +775,7 @@ func skippedOf(stderr string) (string, []string) {
 }
 
 func (e *c18CLI) rcpCase(kind string, file []byte, lines []c18Line, note string) *h.Case {
-	c := &h.Case{Kind: kind, Note: note}
+	c := &h.Case{Kind: kind, Note: note, Canon: canonKeyFile}
 	sl := scannerLines(file)
 	c.Line = "kfclircp " + h.Hex(file) + " " + maskFor(flCliRcp, sl)
 	fpath, out := e.path("r"), e.path("o")
@@ -853,7 +865,7 @@ func trunc80(s string) string {
 }
 
 func (e *c18CLI) idsCase(r *h.Rand, kind string, file []byte, lines []c18Line, note string) *h.Case {
-	c := &h.Case{Kind: kind, Note: note}
+	c := &h.Case{Kind: kind, Note: note, Canon: canonKeyFile}
 	sl := scannerLines(file)
 	c.Line = "kfcliids " + h.Hex(file) + " " + maskFor(flCliIds, sl)
 	fpath, out := e.path("i"), e.path("o")
